@@ -171,7 +171,7 @@ def gen_lit(rng):
         if x < 0.4: parts.append(rng.choice(["a", "b", "x", ":", "-", "<", ">", " "]))
         elif x < 0.8: parts.append("\\" + rng.choice("0123129"))
         elif x < 0.86: parts.append("\\1" + rng.choice(["5", "01", "x"]))          # \15 is \1 then 5 ; \101 is octal A
-        elif x < 0.92: parts.append(rng.choice(["\\t", "\\\\", "\\.", "\\x41", "\\q"]))
+        elif x < 0.92: parts.append(rng.choice(["\\t", "\\\\", "\\.", "\\x41"]))
         else: parts.append("\\\\" + rng.choice("12"))
     return "".join(parts)
 
@@ -311,6 +311,36 @@ def run_part(ctx, bad, mlr_rows, P):
         defs = []
         body = prog_dsl(stmts, defs, "g")
         jobs.append((stmts, b" ".join(defs) + b" end{" + body + b"}"))
+
+    # regression probe (fixed: sub's replacement was interpolated from an earlier =~) + the law itself on the binary:
+    # sub/gsub give the same result whether or not a =~ succeeded or failed before them
+    probe = [("match", False, b"xy", False, ("cat", ("grp", 1, ("chr", 120)), ("grp", 2, ("chr", 121)))),
+             ("sub", False, b"ab", False, ("cat", ("grp", 1, ("chr", 97)), ("grp", 2, ("chr", 98))), "<\\2\\1>"),
+             ("match", False, b"ab", False, ("chr", 113)),
+             ("sub", True, b"abab", False, ("cat", ("grp", 1, ("chr", 97)), ("grp", 2, ("chr", 98))), "<\\2\\1>")]
+    jobs.insert(0, (probe, b" end{" + prog_dsl(probe, [], "g") + b"}"))
+    PROGRAM_MODE[0] = True
+    pairs = []
+    for k in range(16 if quick else 200):
+        t, _ = gen_regex_tree(rng, False, depth=2)
+        pairs.append((rng.random() < 0.5, gen_subject(rng, 5, valid=True), t, rng.choice(["<\\1>", "\\2\\1", "[\\0]", "x\\1y\\3"])))
+    PROGRAM_MODE[0] = False
+    body = []
+    for glob, subj, t, rep in pairs:
+        call = (b"gsub" if glob else b"sub") + b'("' + subj + b'", "' + show(t) + b'", "' + rep.encode() + b'")'
+        body.append(b'"x" =~ @nosuchvariable; print ' + call + b'; "pq" =~ "(p)(q)"; print ' + call + b'; "pq" =~ "(z)"; print ' + call + b";")
+    st, out, err = mlr_run(ctx, ["-n", "put", (b"end{" + b" ".join(body) + b"}").decode("utf-8")], timeout=120)
+    lines = out.split(b"\n")
+    if st != 0 or len(lines) < 3 * len(pairs):
+        bad("regex-program-failed", input="sub/gsub before and after =~", observed=err.decode("latin1")[-300:], expected="exit 0")
+    else:
+        for k, (glob, subj, t, rep) in enumerate(pairs):
+            a, b, c = lines[3 * k:3 * k + 3]
+            ctx.count(("sub-independent-of-registers", subj, show(t), rep))
+            if not (a == b == c):
+                bad("sub-replacement-uses-earlier-match-captures", input={"fn": "gsub" if glob else "sub", "s": subj.decode("utf-8"), "regex": show(t).decode("utf-8"), "replacement": rep},
+                    observed={"registers unset": a.decode("latin1"), "after a successful =~": b.decode("latin1"), "after a failed =~": c.decode("latin1")}, expected="the same result three times",
+                    how="mlr -n put 'end{if (\"pq\" =~ \"(p)(q)\") {print %s}}'" % call.decode("utf-8").replace("'", ""))
 
     def one(job):
         stmts, dsl = job
